@@ -142,7 +142,9 @@ def decide(prop, tier, seed=0, use_cache=True, out=sys.stdout):
     if need_twins and twin_names:
         run_now = [h for h in twin_names if h not in kres["harnesses"]]
         if run_now:
-            twin_res = kani_run.run_harnesses(run_now, cfg, use_cache=use_cache)
+            # the quick tier must stay well under 15 minutes in total: the fallback gets what is left of a 12 minute budget
+            budget = 3000 if tier == "thorough" else max(120, int(720 - (time.time() - t0)))
+            twin_res = kani_run.run_harnesses(run_now, cfg, use_cache=use_cache, timeout=budget)
             for h in run_now:
                 r = twin_res["harnesses"].get(h)
                 if not r:
@@ -186,7 +188,12 @@ def decide(prop, tier, seed=0, use_cache=True, out=sys.stdout):
         if v["engine"] == "kani":
             pb = replays.get(v["harness"])
             if pb is None:
-                pb = replays[v["harness"]] = kani_playback(v["harness"], cfg)
+                # native replay costs a build + a verification run each: at most two per check in the quick tier
+                if tier == "quick" and len(replays) >= 2:
+                    pb = {"skipped": "replay budget of the quick tier used up; run the thorough tier or ./check replay"}
+                else:
+                    pb = kani_playback(v["harness"], cfg)
+                replays[v["harness"]] = pb
             entry["counterexample"] = pb
             entry["harness"] = v["harness"]
             if pb and pb.get("native_replay_failed") is False:
